@@ -254,6 +254,32 @@ def run(ctx):
                 texts.append("(vector-set! #(1 2) 0 '|%s|)" % body)
     b, sk = run_stage(ctx, texts, "messages", with_text=False)
     ctx.stage("messages", texts=len(texts), rejected=b, outside_claim=sk)
+    # ---- every builtin on boundary operands: the extreme exact integers, ratios with extreme components, zero of both
+    # signs, huge and tiny reals, and a few non-numbers - a value or a reported error, never a crash
+    nums = ["-2147483648", "-2147483647", "-1", "0", "1", "2", "2147483647", "65536", "46341", "-1/2", "1/2147483647", "-2147483648/3", "2147483647/2",
+            "0.0", "-0.0", "1.5", "3.4028235e38", "-3.4028235e38", "1e-45", "16777217.0", "(/ 0. 0.)", "(/ 1. 0.)", "'a", "\"s\"", "'()", "#t"]
+    unary = ["-", "/", "abs", "sqrt", "exp", "ln", "sin", "cos", "tan", "asin", "acos", "atan", "floor", "ceiling", "exact", "+", "*", "max", "min",
+             "number?", "integer?", "zero?", "vector", "list", "not"]
+    binary = ["+", "-", "*", "/", "=", "<", ">", "<=", ">=", "max", "min", "floor-quotient", "floor-remainder", "log", "atan2", "eqv?", "eq?", "equal?",
+              "make-vector", "cons", "expt", "quotient", "remainder", "modulo", "list-tail", "list-ref", "vector-ref"]
+    texts = ["(%s %s)" % (o, a) for o in unary for a in nums if not (o == "make-list" and a in ("2147483647", "65536", "46341"))]
+    pairs = [(a, b) for a in nums for b in nums]
+    if tier == "quick":
+        pairs = [p_ for p_ in pairs if p_[0] in nums[:8] or p_[1] in nums[:8]]
+    for o in binary:
+        for a, b2 in pairs:
+            if o in ("make-vector", "make-list") and a in ("2147483647", "65536", "46341"):
+                continue          # (allocating a gigabyte is not a crash of the interpreter but of the sandbox)
+            if o in ("list-tail", "list-ref", "vector-ref"):
+                a = "(list 1 2)" if o != "vector-ref" else "(vector 1 2)"
+            texts.append("(%s %s %s)" % (o, a, b2))
+    texts += ["(%s %s %s %s)" % (o, a, b2, c) for o in ("+", "-", "*", "/", "<", "max") for a in nums[:7] for b2 in nums[:7] for c in ("-1", "0", "2147483647", "-2147483648")]
+    # (make-list with a count that is not a non-negative integer never terminates: outside the claim, and slow to establish)
+    texts += ["(make-list %s %s)" % (k, a) for k in ("0", "1", "2") for a in nums]
+    texts += ["(vector-set! (vector 1 2) %s 0)" % a for a in nums] + ["(vector-ref '#(1 2) %s)" % a for a in nums] + ["(make-vector %s)" % a for a in nums[:5]]
+    texts = sorted(set(texts))
+    b, sk = run_stage(ctx, texts, "boundaries", with_text=False)
+    ctx.stage("boundaries", texts=len(texts), rejected=b, outside_claim=sk)
     # ---- files: programs and libraries that are not valid UTF-8, mutated library sources imported
     fdir = os.path.join(ctx.dir, "files")
     shutil.rmtree(fdir, ignore_errors=True); os.makedirs(fdir)
